@@ -254,6 +254,23 @@ INFO = {
  ('13','C18','m2'): ("Observer::error / complete each clear the other terminal's slot before claiming their own: a completion and an error from two source threads cancel each other and the future never becomes ready", ['C19', 'C01']),
  ('13','C19','m1'): ("fn_next no longer checks the terminated flag and Subject::error/complete hand out the terminal before clearing the map: Subject::next from a second thread after A's terminal returned while B's terminal callback still runs", ['C01', 'C10']),
  ('13','C19','m2'): ("terminated becomes a phase that lets a repeat of the same terminal kind through, and call_and_clear_if_available calls first and clears afterwards: two errors from two threads, the second while the first callback runs", ['C01']),
+ ('14','C03','m1'): ("take_until: the trigger's completion ends the stream and the trigger is subscribed before the source's observer exists: a trigger that completes without an item inside its own subscribe call (empty, just(0).filter(false))", []),
+ ('14','C03','m2'): ("sample hands the pending item on when the source completes: the source completes while an item that no tick has released is pending", ['C16']),
+ ('14','C04','m2'): ("window_with_count's error handler errors a clone of the first window's subject instead of the open one: at least `count` items before the error, and the open window has its own subscriber (not flattened)", []),
+ ('14','C06','m1'): ("sequence_equal unsubscribes its inputs only when no input has completed yet: inputs of different length equal up to the end of the shorter one, the longer one still alive when the verdict falls", []),
+ ('14','C06','m2'): ("concat builds the observer of its 2nd and later sources with Observer::new instead of new_observer: the first source completes, a later hot / endless source is running, then the subscription ends from downstream", ['C15', 'C17']),
+ ('14','C07','m1'): ("group_by calls an existing group's subject while holding the key map's read lock: a later item of an existing group is being delivered and the subscriber emits an item with a new key into the source", []),
+ ('14','C07','m2'): ("window_with_count's terminal handlers take sbj.read then n.read, the item handler holds n.write and takes sbj.write for the closing item: a terminal from another thread while the count-th item of a window is in its decision block", ['C19']),
+ ('14','C09','m1'): ("observe_on parks items in a backlog drained by one task that clears its `draining` flag without re-checking the backlog: the emitter's last next overlaps the instant the worker finds the backlog empty", []),
+ ('14','C09','m2'): ("a thread-local marker set by subscribe_on's posted task turns a subscribe_on that starts on a marked thread into a pass-through: two stacked subscribe_on (or one inside flat_map under another)", ['C15']),
+ ('14','C11','m2'): ("zip checks under a read lock whether every other queue is non-empty before it pushes, and skips the pairing loop when that was false: the i-th items of two inputs arrive from two threads at the same moment", ['C03']),
+ ('14','C13','m1'): ("ref_count stores its connection only after the source has been subscribed: a cold source emits synchronously inside the connect and the only subscriber leaves mid-emission (take(k))", ['C06']),
+ ('14','C13','m2'): ("replay's connect-once flag is read first and set only after the source has been subscribed: a cold source delivers its terminal inside the first subscriber's connect and a second subscriber arrives from another thread in that window", []),
+ ('14','C14','m2'): ("max keeps its running maximum per operator value: a later subscription of the same value whose own maximum is smaller (or which is empty), also under retry", []),
+ ('14','C15','m1'): ("interval's posted task returns at once when the subscription has already ended, skipping the abort after its loop: the subscription ends before the new worker has run its first statement (subscribe + unsubscribe at once, timeout's re-armed timers)", ['C16']),
+ ('14','C15','m2'): ("timeout creates a second StreamController on the same subscriber, whose hook overwrites the first one's finalizer: the end comes from downstream or from the timeout itself, the source owns a scheduler thread and stays silent afterwards", ['C06']),
+ ('14','C16','m1'): ("timeout numbers its items and a timer only fires if its number is still current: the second item passes through the whole handler while the first is still being delivered, the first then arms last (stale number) - no TimedOut ever", []),
+ ('14','C16','m2'): ("delay waits with park_timeout and an on_finalize hook unparks the recorded thread: a stream that ends while its thread is not parked leaves an unpark token, the next item pushed by that thread is not delayed", []),
 }
 
 def rows(path):
@@ -269,7 +286,7 @@ def rows(path):
 
 def main():
     only = sys.argv[sys.argv.index('--round') + 1] if '--round' in sys.argv else None
-    results = {'1': {}, '2': {}, '3': {}, '4': {}, '5': {}, '6': {}, '7': {}, '8': {}, '9': {}, '10': {}, '11': {}, '12': {}, '13': {}}
+    results = {'1': {}, '2': {}, '3': {}, '4': {}, '5': {}, '6': {}, '7': {}, '8': {}, '9': {}, '10': {}, '11': {}, '12': {}, '13': {}, '14': {}}
     for p in ['/var/tmp/results1.tsv', os.path.join(S, '_incoming', 'RESULTS.tsv'), '/var/tmp/results2.tsv']:
         results['1'].update(rows(p))
     results['2'].update(rows(os.path.join(S, '_incoming2', 'RESULTS.tsv')))
@@ -284,9 +301,10 @@ def main():
     results['11'].update(rows(os.path.join(S, '_incoming11', 'RESULTS.tsv')))
     results['12'].update(rows(os.path.join(S, '_incoming12', 'RESULTS.tsv')))
     results['13'].update(rows(os.path.join(S, '_incoming13', 'RESULTS.tsv')))
+    results['14'].update(rows(os.path.join(S, '_incoming14', 'RESULTS.tsv')))
     dropped = []
     kept = []
-    for rnd, src in (('1', '_incoming'), ('2', '_incoming2'), ('3', '_incoming3'), ('4', '_incoming4'), ('5', '_incoming5'), ('6', '_incoming6'), ('7', '_incoming7'), ('8', '_incoming8'), ('9', '_incoming9'), ('10', '_incoming10'), ('11', '_incoming11'), ('12', '_incoming12'), ('13', '_incoming13')):
+    for rnd, src in (('1', '_incoming'), ('2', '_incoming2'), ('3', '_incoming3'), ('4', '_incoming4'), ('5', '_incoming5'), ('6', '_incoming6'), ('7', '_incoming7'), ('8', '_incoming8'), ('9', '_incoming9'), ('10', '_incoming10'), ('11', '_incoming11'), ('12', '_incoming12'), ('13', '_incoming13'), ('14', '_incoming14')):
         if only is not None and rnd != only:
             continue
         base = os.path.join(S, src)
@@ -302,7 +320,7 @@ def main():
                     continue
                 key = f'{prop}/{m}'
                 r = results[rnd].get(key)
-                # m1,m2 = round 1; m3,m4 = round 2; m5,m6 = round 3; m7,m8 = round 4; m9,m10 = round 5; m11,m12 = round 6; m13,m14 = round 7; m15,m16 = round 8; m17,m18 = round 9; m19,m20 = round 10; m21,m22 = round 11; m23,m24 = round 12; m25,m26 = round 13
+                # m1,m2 = round 1; m3,m4 = round 2; m5,m6 = round 3; m7,m8 = round 4; m9,m10 = round 5; m11,m12 = round 6; m13,m14 = round 7; m15,m16 = round 8; m17,m18 = round 9; m19,m20 = round 10; m21,m22 = round 11; m23,m24 = round 12; m25,m26 = round 13; m27,m28 = round 14
                 name = f'{prop}-m{int(m[1:]) + 2 * (int(rnd) - 1)}'
                 if r is None:
                     dropped.append((name, 'not re-confirmed yet'))
